@@ -139,6 +139,12 @@ LAYERS = {
          "pos": [rq(C("sid", 0x62), MR("echo", 1, 2), V("data"))]},
         {"name": "B", "request": rq(C("sid", 0x10), V("s")), "pos": [rq(C("sid", 0x50), V("s"))]},
     ]},
+    # the longer of two services ends with a parameter that is not byte aligned and spills into
+    # one more byte; a message that is short by exactly that byte belongs to the shorter service
+    "unaligned-tail": {"services": [
+        {"name": "A", "request": rq(C("sid", 0x2A), V("x"), V("w"))},
+        {"name": "B", "request": rq(C("sid", 0x2A), V("y"), V("z", 8, bitpos=4))},
+    ]},
     "sid-ff": {"services": [
         {"name": "A", "request": rq(C("sid", 0xFF), V("x")), "pos": [rq(C("sid", 0x3F), V("y"))]},
         {"name": "B", "request": rq(C("sid", 0x00), V("x"))},
